@@ -183,6 +183,7 @@ class Sym:
         self.applying = 0
         self.closures = {}     # closure site -> (node, captured env, frames)
         self.arith = {}        # span of a + - * node -> set of (op, left term, right term) seen on the paths
+        self.indexed = {}      # span of an index node -> set of (length of the indexed array literal/constant or None, index term)
 
     # ------------------------------------------------------------------ entry points
     def run(self, split_result=False):
@@ -297,7 +298,15 @@ class Sym:
         if isinstance(v, bool) or isinstance(v, int) or isinstance(v, str) and self.F.consts.get(path, {}).get("ty", "").endswith("str"):
             return ("lit", v)
         if isinstance(v, list):
-            return ("array", tuple(("ctor", x["path"], ()) if isinstance(x, dict) else ("lit", x) for x in v))
+            def term(x):
+                if isinstance(x, dict) and "path" in x:
+                    return ("ctor", x["path"], ())
+                if isinstance(x, dict) and "tuple" in x:
+                    return ("tuple", tuple(term(y) for y in x["tuple"]))
+                if isinstance(x, list):
+                    return ("array", tuple(term(y) for y in x))
+                return ("lit", x)
+            return term(v)
         return ("const", path)
 
     def discriminant(self, ctor):
@@ -457,6 +466,16 @@ class Sym:
         if name not in ("and_then", "map", "map_err", "or_else", "unwrap_or_else", "map_or", "map_or_else", "ok_or_else", "filter", "inspect", "inspect_err", "then", "is_some_and", "is_ok_and"):
             return None
         recv = args[0]
+        # a closure written in the argument list is consumed here: its body is evaluated in place on the paths that call it,
+        # so its creation is no longer an event of its own
+        inner = None
+        for a in clos:
+            cnode = self.closures[a[1]][0]
+            if any(e.kind == "closure" and e.node is cnode for e in st.effects):
+                if inner is None:
+                    inner = {id(x) for x in H.walk(n)}
+                if id(cnode) in inner:
+                    st.effects = tuple(e for e in st.effects if not (e.kind == "closure" and e.node is cnode))
         self.applying += 1
         try:
             out = []
@@ -693,6 +712,7 @@ class Sym:
                 out.append((s, None))
                 continue
             b, i = ts
+            self.indexed.setdefault(n.get("sp"), set()).add((len(b[1]) if b[0] == "array" else None, i))
             if b[0] == "array" and i[0] == "lit" and isinstance(i[1], int) and 0 <= i[1] < len(b[1]):
                 out.append((s, b[1][i[1]]))
             else:
@@ -770,6 +790,12 @@ class Sym:
                 return ("lit", v)
         if l[0] == "lit" and r[0] == "lit" and op in ("==", "!="):
             return ("lit", (l[1] == r[1]) == (op == "=="))
+        for x, y in ((l, r), (r, l)):
+            if x[0] == "lit" and isinstance(x[1], bool):
+                if op in ("|", "||"):
+                    return ("lit", True) if x[1] else y
+                if op in ("&", "&&"):
+                    return y if x[1] else ("lit", False)
         if op in ("+", "*", "&", "|", "^", "==", "!=") and repr(l) > repr(r):
             l, r = r, l     # commutative: canonical operand order
         if op in (">", ">="):
@@ -952,29 +978,91 @@ class Sym:
                     out.append((s2, None))
         return out
 
+    def try_count(self, n, st, limit=64):
+        """a loop whose carried locals are literals before it and after every iteration (`let mut i = 0; while i < N { ..; i += 1 }`
+        with constant N): run it concretely, iteration by iteration; None when it does not stay concrete or does not end within
+        `limit` iterations"""
+        fid = self.frame_id(st)
+        target = (fid, n.get("hid"))
+        lids = []
+        for x in H.walk(n["body"]):
+            if x.get("k") in ("assign", "assignop") and x["l"].get("k") == "path":
+                lid = H.local_id(x["l"])
+                if lid is not None and (fid, lid) in st.env and lid not in lids:
+                    lids.append(lid)
+        if not lids or any(st.env[(fid, l)][0] != "lit" for l in lids):
+            return None
+        if any(x.get("k") == "loop" for x in H.walk(n["body"]) if x is not n["body"]):
+            return None
+        saved = (self.seq, self.count)
+        live = [st.fork()]
+        finished = []
+        for _ in range(limit):
+            nxt = []
+            for s0 in live:
+                for s, t in self.ev(n["body"], s0):
+                    if s.done is not None and s.done[0] == "break" and s.done[1] == target:
+                        s.done = None
+                        t = s.result if s.result is not None else ("tuple", ())
+                        s.result = None
+                        finished.append((s, t))
+                    elif s.done is None or (s.done[0] == "continue" and s.done[1] == target):
+                        s.done = None
+                        if any(s.env.get((fid, l), ("x",))[0] != "lit" for l in lids):
+                            return None
+                        nxt.append(s)
+                    else:
+                        finished.append((s, None))
+            live = nxt
+            if not live:
+                return finished
+            if len(live) + len(finished) > 256:
+                return None
+        return None
+
     def ev_loop(self, n, st):
+        r = self.try_count(n, st)
+        if r is not None:
+            return r
         fid = self.frame_id(st)
         target = (fid, n.get("hid"))
         # a local that is re-assigned as a whole inside the body has an unknown value in "some iteration";
         # a container mutated in place (x.f = .., x.push(..)) keeps its identity (the term that created it)
+        # The trace records the loop-carried locals: ('enter', loop, ((local id, name, value before the loop, its symbol at the
+        # start of the iteration), ..)), and at the end of the iteration / at the exit ('iter' | 'break', loop, ((local id, value), ..)).
+        carried = []
+        lsite = self.site(n, st)
         for x in H.walk(n["body"]):
             if x.get("k") in ("assign", "assignop") and x["l"].get("k") == "path":
                 lid = H.local_id(x["l"])
-                if lid is not None:
-                    st.env[(fid, lid)] = self.fresh("loop-var")
+                if lid is not None and (fid, lid) in st.env and lid not in [c[0] for c in carried]:
+                    lv = self.fresh("loop-var")
+                    carried.append((lid, x["l"]["res"].get("name"), st.env[(fid, lid)], lv))
+                    st.env[(fid, lid)] = lv
+        st.trace = st.trace + (("enter", lsite, tuple(carried)),)
         st.loops += 1
         st.loop_depth += 1
         out = []
-        lsite = self.site(n, st)
+
+        def snapshot(s, leave):
+            snap = tuple((lid, s.env.get((fid, lid))) for lid, _n, _i, _lv in carried)
+            if not leave:
+                # the code after the loop is reached after any number of further iterations
+                for lid, _n, _i, lv in carried:
+                    if s.env.get((fid, lid)) != lv:
+                        s.env[(fid, lid)] = self.fresh("assigned-in-loop")
+            return snap
+
         for s, t in self.ev(n["body"], st):
             if s.done is not None and s.done[0] in ("break", "continue") and s.done[1] == target:
-                s.trace = s.trace + ((("break" if s.done[0] == "break" else "iter"), lsite),)
+                brk = s.done[0] == "break"
+                s.trace = s.trace + ((("break" if brk else "iter"), lsite, snapshot(s, brk)),)
                 s.done = None
                 t = s.result if s.result is not None else self.fresh("loop")
                 s.result = None
                 s.loop_depth -= 1
             elif s.done is None:
-                s.trace = s.trace + (("iter", lsite),)
+                s.trace = s.trace + (("iter", lsite, snapshot(s, False)),)
                 s.loop_depth -= 1
                 t = t if t is not None else self.fresh("loop")
             out.append((s, t))
@@ -1024,6 +1112,8 @@ class Sym:
             v = ts[0]
             if n["k"] == "assignop":
                 for s2, lt in self.ev(n["l"], s):
+                    if s2.done is None and n["op"].rstrip("=") in ("+", "-", "*"):
+                        self.arith.setdefault(n.get("sp"), set()).add((n["op"].rstrip("="), lt, v))
                     v2 = self.binop(n["op"].rstrip("="), lt, v) if s2.done is None else None
                     self.store(n, s2, v2)
                     out.append((s2, ("tuple", ())))
@@ -1045,7 +1135,7 @@ class Sym:
         if self.is_effect("<assign>", [place, v], n, st):
             self.add_effect(st, "assign", "<assign>", [place, v], n, None)
         if lid is not None and n["l"].get("k") == "path":
-            st.env[(fid, lid)] = v if st.loop_depth == 0 else self.fresh("assigned-in-loop")
+            st.env[(fid, lid)] = v if v is not None else self.fresh("assigned")
         elif tgt.get("k") == "field":
             # x.f.g = v : the local x now holds an updated value (only for values this function owns a copy of)
             chain = []
@@ -1136,6 +1226,10 @@ class Sym:
         site = self.site(n, st)
         self.mark_mutated(n, st)
         for c in (trait_callee, callee):
+            ex = self.expand_combinator(c, n, args, st)
+            if ex is not None:
+                return ex
+        for c in (trait_callee, callee):
             if c in TESTS and args:
                 # a test used as a value: decided when known, otherwise opaque boolean
                 ctor, pol = TESTS[c]
@@ -1146,10 +1240,6 @@ class Sym:
             simp = self.combinator(c, args, site) if c else None
             if simp is not None:
                 return [(st, simp)]
-        for c in (trait_callee, callee):
-            ex = self.expand_combinator(c, n, args, st)
-            if ex is not None:
-                return ex
         for c in (trait_callee, callee):
             if c in UNWRAPS and args:
                 good = UNWRAPS[c]
@@ -1306,6 +1396,21 @@ class Sym:
                 continue
             out.extend(self.truth(t, s))
         return out
+
+    def resolve(self, st, t):
+        """t with the variant tests it contains decided by what is known on the path (a flag computed before the path split on
+        the tested value)"""
+        if t is None or not isinstance(t, tuple):
+            return t
+        if t[0] == "test":
+            k = self.lookup(st, t[1])
+            return t if k is None else ("lit", k == t[2])
+        if t[0] == "bin":
+            return self.binop(t[1], self.resolve(st, t[2]), self.resolve(st, t[3]))
+        if t[0] == "un" and t[1] == "not":
+            x = self.resolve(st, t[2])
+            return ("lit", not x[1]) if x[0] == "lit" and isinstance(x[1], bool) else ("un", "not", x)
+        return t
 
     def truth(self, t, st):
         if t[0] == "lit" and isinstance(t[1], bool):
